@@ -275,7 +275,12 @@ func Execute(t *testing.T, c *Case, dir string, rr *raceReader, runWall time.Dur
 	}
 	simrt.SetMapSeed(0)
 	simrt.AttachDisk(nil)
-	if d := simrt.RaceErrors() - before; d > 0 {
+	if d := simrt.RaceErrors() - before; d > 0 && v.Class == "violation" && v.Fatal && strings.Contains(v.Sig, "hang") {
+		// the run was abandoned with its tasks stuck in the middle of things: what the detector says about the
+		// harness reading their half-written notes is no news, the hang is the verdict (and the process ends)
+		_ = rr.read()
+		v.Count("race_reports_after_hang_ignored", int64(d))
+	} else if d > 0 {
 		text := rr.read()
 		sig := raceSig(text)
 		v.Count("race_reports", int64(d))
